@@ -1,5 +1,6 @@
 (* C12 — proofs: the namespace-folding model of auto_cli refines the last-assignment reference
    semantics (simulation over the token list), under the two guards. *)
+Require Import Btauto.
 From JV Require Import Lib.Base Lib.C12Syntax Model.C12Cli Spec.C12CliSpec.
 
 (* ---- strings / association lists ------------------------------------------------------------ *)
@@ -61,8 +62,24 @@ Proof. destruct n as [|c n]; reflexivity. Qed.
 
 Lemma sig_guard3_cons p s : sig_guard3 (p :: s) = true -> nullish_default p = false /\ sig_guard3 s = true.
 Proof.
-  unfold sig_guard3. simpl. rewrite negb_orb. intro H. apply andb_true_iff in H. destruct H as [H1 H2].
-  apply negb_true_iff in H1. auto.
+  unfold sig_guard3, sig_nullish_free, sig_posonly_free. simpl. rewrite !negb_orb. intro H.
+  apply andb_true_iff in H. destruct H as [H1 H2].
+  apply andb_true_iff in H1. destruct H1 as [H1 H3]. apply andb_true_iff in H2. destruct H2 as [H2 H4].
+  apply negb_true_iff in H1. rewrite H3, H4. auto.
+Qed.
+
+Lemma sig_guard3_posonly p s : sig_guard3 (p :: s) = true -> is_posonly p = false.
+Proof.
+  unfold sig_guard3, sig_nullish_free, sig_posonly_free. simpl. rewrite !negb_orb. intro H.
+  apply andb_true_iff in H. destruct H as [_ H2]. apply andb_true_iff in H2. destruct H2 as [H2 _].
+  apply negb_true_iff in H2. exact H2.
+Qed.
+
+(* inside the guard no value can reach a positional-only parameter by keyword: there is none *)
+Lemma posonly_given_false s kw : sig_guard3 s = true -> posonly_given s kw = false.
+Proof.
+  induction s as [|p s IH]; [reflexivity|]. intro H. pose proof (sig_guard3_posonly _ _ H) as HP.
+  apply sig_guard3_cons in H. destruct H as [_ H]. unfold posonly_given in *. simpl. rewrite HP. simpl. auto.
 Qed.
 
 Lemma sig_guard3_In p s : sig_guard3 s = true -> In p s -> nullish_default p = false.
@@ -800,7 +817,7 @@ Section Sim.
       assert (In k (map fst (ns_args (args_of_sig false as_pos s) asg))) by (change k with (fst (k, v)); apply in_map; auto).
       rewrite keys_ns_args in H. apply in_map_iff in H. destruct H as [a [Ha1 Ha2]]. subst k.
       eapply dests_subset; eauto. }
-    rewrite HE. exact H2.
+    rewrite HE. rewrite (posonly_given_false s _ HG). exact H2.
   Qed.
 
   (* ---- what parse returns: one frame per level, each the fold of that level's assignments ------- *)
@@ -1294,7 +1311,7 @@ Section Sim.
     match normalize cs with
     | Ok c => sp_top cs = Some c /\ c <> CHelp /\
               (no_class_subcommand_param cs = true -> guardA_comp c = true) /\
-              (no_nullish_str_default cs = true -> guardB_comp c = true)
+              (in_guard cs = true -> guardB_comp c = true)
     | Err EBuild => sp_top cs = None
     | Err EUnmodelled => True
     | Err _ => False
@@ -1320,7 +1337,7 @@ Section Sim.
 
   (* ---- the theorem: under the two guards the code-shaped model does what the reference semantics says *)
   Theorem model_refines_spec cs toks :
-    no_nullish_str_default cs = true ->
+    in_guard cs = true ->
     match auto_cli false conv as_pos cs toks with
     | Ok (log, ret) => spec conv as_pos cs toks = Done log ret
     | Err EParse => spec conv as_pos cs toks = Rejected
@@ -1381,17 +1398,17 @@ Section Sim.
   Qed.
 
   Corollary binds_exactly cs toks log ret :
-    no_nullish_str_default cs = true ->
+    in_guard cs = true ->
     auto_cli false conv as_pos cs toks = Ok (log, ret) -> spec conv as_pos cs toks = Done log ret.
   Proof. intros G2 H. pose proof (model_refines_spec cs toks G2) as HR. rewrite H in HR. exact HR. Qed.
 
   Corollary never_crashes cs toks :
-    no_nullish_str_default cs = true ->
+    in_guard cs = true ->
     auto_cli false conv as_pos cs toks <> Err ECrash.
   Proof. intros G2 H. pose proof (model_refines_spec cs toks G2) as HR. rewrite H in HR. exact HR. Qed.
 
   Corollary rejects_exactly cs toks :
-    no_nullish_str_default cs = true ->
+    in_guard cs = true ->
     (auto_cli false conv as_pos cs toks = Err EParse -> spec conv as_pos cs toks = Rejected) /\
     (auto_cli false conv as_pos cs toks = Err EBuild -> spec conv as_pos cs toks = Refused).
   Proof.
@@ -1536,7 +1553,7 @@ Section Sim.
 
   (* for a class given to auto_cli: constructor and method each receive exactly their own parameters *)
   Theorem class_split n i ms toks log ret :
-    no_nullish_str_default (One (CCls n i ms)) = true ->
+    in_guard (One (CCls n i ms)) = true ->
     auto_cli false conv as_pos (One (CCls n i ms)) toks = Ok (log, ret) ->
     exists b1, map fst b1 = names i /\
       ((ms = [] /\ log = [([n; s__init__], b1)] /\ ret = RetInstance) \/
@@ -1579,6 +1596,41 @@ Section Sim.
     destruct (p_ty p); reflexivity.
   Qed.
 End Sim.
+
+(* ---- the guard of the theorem is exactly "in neither finding class" ------------------------------ *)
+Lemma forallb_andb_c12 {A} (f g : A -> bool) l : forallb (fun x => f x && g x) l = forallb f l && forallb g l.
+Proof. induction l as [|x l IH]; simpl; auto. rewrite IH. btauto. Qed.
+
+Lemma guard_by_grp_kids sg kids :
+  guard_comp_by sg (CGrp kids) = forallb (fun kc => guard_comp_by sg (snd kc)) kids.
+Proof. simpl. induction kids as [|[k c] kids IH]; simpl; auto. rewrite IH. reflexivity. Qed.
+
+Lemma guardB_comp_split c :
+  guardB_comp c = guard_comp_by sig_nullish_free c && guard_comp_by sig_posonly_free c.
+Proof.
+  induction c as [n s|n i ms|kids HF|] using comp_ind2.
+  - reflexivity.
+  - cbn [guardB_comp guard_comp_by]. unfold sig_guard3.
+    rewrite (forallb_andb_c12 (fun ms0 : str * sig => sig_nullish_free (snd ms0)) (fun ms0 => sig_posonly_free (snd ms0)) ms).
+    btauto.
+  - rewrite guard2_grp_kids, !guard_by_grp_kids.
+    induction kids as [|[k c] kids IHk]; [reflexivity|].
+    inversion HF as [|? ? H1 H2]; subst. simpl in H1. simpl. rewrite H1, (IHk H2). btauto.
+  - reflexivity.
+Qed.
+
+Lemma forallb_guardB_split {A} (g : A -> comp) l :
+  forallb (fun x => guardB_comp (g x)) l =
+  forallb (fun x => guard_comp_by sig_nullish_free (g x)) l && forallb (fun x => guard_comp_by sig_posonly_free (g x)) l.
+Proof. induction l as [|x l IH]; simpl; auto. rewrite IH, guardB_comp_split. btauto. Qed.
+
+Lemma in_guard_split cs : in_guard cs = no_nullish_str_default cs && no_positional_only cs.
+Proof.
+  destruct cs as [c|l|kids]; unfold in_guard, no_nullish_str_default, no_positional_only, guard_by.
+  - apply guardB_comp_split.
+  - apply (forallb_guardB_split (fun c => c)).
+  - apply (forallb_guardB_split (fun kc : str * comp => snd kc)).
+Qed.
 
 (* ---- witnesses: the guards are needed (the unchanged code violates the property there), and the
         hypotheses of the theorem are satisfiable by non-trivial inputs ------------------------------ *)
@@ -1651,7 +1703,7 @@ Definition w_ex_toks : list tok :=
    KPos (RStr w_tool); KPos (RInt 9); KPos (RStr w_train); KOpt w_alpha (RInt 4); KPos (RBool true); KOpt w_alpha (RInt 5)].
 
 Lemma guards_satisfiable :
-  no_nullish_str_default w_ex_comps = true /\
+  in_guard w_ex_comps = true /\
   auto_cli false conv_simple true w_ex_comps w_ex_toks =
     Ok ([([w_tool; s__init__], [(w_alpha, VInt 9); (w_beta, VStr w_sigma)]);
          ([w_tool; w_train], [(w_alpha, VInt 5); (w_sigma, VBool true)])], RetCall 1).
@@ -1695,3 +1747,24 @@ Proof.
   exists (One (CFn w_run [w_p w_alpha (TOpt TStr) (Some (VStr w_null))])), [].
   vm_compute. auto.
 Qed.
+
+(* def run(alpha: int, /), `3`: _run_component calls run( **{alpha: 3} ) -> TypeError "got some positional-only arguments
+   passed as keyword arguments" escapes auto_cli; the property demands run(3) *)
+Definition w_po (n : str) (t : ty) (d : option value) : param :=
+  {| p_name := n; p_kind := PosOnly; p_ty := t; p_default := d |}.
+Lemma positional_only_refuted :
+  exists cs toks,
+    no_positional_only cs = false /\ no_nullish_str_default cs = true /\
+    auto_cli false conv_simple true cs toks = Err ECrash /\
+    spec conv_simple true cs toks = Done [([w_run], [(w_alpha, VInt 3)])] (RetCall 0).
+Proof.
+  exists (One (CFn w_run [w_po w_alpha TInt None])), [KPos (RInt 3)].
+  vm_compute. auto.
+Qed.
+
+(* a positional-only parameter that is left to its default (private names are not offered) does no harm *)
+Lemma positional_only_default_harmless :
+  auto_cli false conv_simple true (One (CFn w_run [w_po w_hid TInt (Some (VInt 4));
+                                                        {| p_name := w_alpha; p_kind := KwOnly; p_ty := TInt; p_default := None |}])) [KPos (RInt 3)]
+  = Ok ([([w_run], [(w_hid, VInt 4); (w_alpha, VInt 3)])], RetCall 0).
+Proof. vm_compute. reflexivity. Qed.
